@@ -7,7 +7,7 @@ oracle : exact-Fraction statement of the property on the real outputs (grid, mon
          p-box contains the empirical quantiles and equals the closed-form order statistics, unsupported alpha raises)
 """
 from __future__ import annotations
-import math, copy, bisect, json, collections, gc
+import math, copy, bisect, json, collections, gc, pickle
 from fractions import Fraction as F
 import numpy as np
 from . import core
@@ -89,7 +89,7 @@ def _ks(data, a, c, **kw):
     return KS_bounds(data, a, display=False, **kw)
 
 
-def run_impl(c, keep=False):
+def run_impl(c, keep=False, data=None):
     KS_bounds, d_alpha, I, Params = _mods()
     n = len(c["lo"]) if c["kind"] == "interval" else len(c["s"])
     a = alpha_obj(c)
@@ -99,7 +99,7 @@ def run_impl(c, keep=False):
             out["D"] = ("ok", float(d_alpha(n, a)))
         except BaseException as e:  # noqa
             out["D"] = ("err", err_kind(e))
-        data = build(c)
+        data = build(c) if data is None else data
         snap = _snap(data)
         u = l = p = None
         try:
@@ -112,6 +112,13 @@ def run_impl(c, keep=False):
             out["pbox"] = ("ok", _fl(p.left), _fl(p.right))
         except BaseException as e:  # noqa
             out["pbox"] = ("err", err_kind(e))
+        if c.get("un"):
+            try:
+                un = _ks(data, a, c, output_type="un")
+                pc = un.construct
+                out["un"] = ("ok", _fl(pc.left), _fl(pc.right))
+            except BaseException as e:  # noqa
+                out["un"] = ("err", err_kind(e))
         out["input_unchanged"] = _snap(data) == snap
         # the bundles returned by the first call must not have been touched by the second call
         out["band_stable"] = (u is None) or _canon_band(u, l) == out["band"]
@@ -192,12 +199,22 @@ def _scale_vals(rng, n, style):
     if style == "offset":        # large location, comparatively small gaps (ties likely)
         off = rng.choice([2e6, 1e7, 1e9])
         return [off + 3.0 * rng.randint(-n, n) for _ in range(n)]
+    if style == "pow2tiny":      # integers with ties, scaled by a power of two (exact)
+        k = rng.choice([30, 50, 70])
+        return [rng.randint(-9, 9) * 2.0 ** -k for _ in range(n)]
+    if style == "pow2huge":
+        return [rng.randint(-9, 9) * 2.0 ** 36 for _ in range(n)]
+    if style == "e-170":
+        e = rng.choice([1e-19, 1e-170])
+        return [rng.gauss(0, 1) * e for _ in range(n)]
+    if style == "e150":
+        return [rng.gauss(0, 1) * 1e150 for _ in range(n)]
     if style == "bigints":
         return [float(rng.randint(-10 ** 9, 10 ** 9)) for _ in range(n)]
     return [rng.gauss(rng.uniform(-3, 3), 1) for _ in range(n)]
 
 
-STYLES = ["ints", "ints", "normal", "normal", "tiny", "huge", "dyadic", "lognormal", "const", "tiny12", "offset", "bigints"]
+STYLES = ["ints", "ints", "normal", "normal", "tiny", "huge", "dyadic", "lognormal", "const", "tiny12", "offset", "bigints", "pow2tiny", "pow2huge", "e-170", "e150"]
 
 
 def _size(rng, big):
@@ -272,7 +289,7 @@ def _dtype_widen(rng, dt, vals):
 
 
 UNSUPPORTED = [0.2, 0.01, 0.5, 0.95, 0.9, 0.975, 0.0, 1.0, -0.05, 2.0, 0.15 - 0.1, math.nextafter(0.05, 1.0),
-               math.nextafter(0.1, 0.0), 0.1 + 0.05, 1e-300, 0.3, 0.001, float("nan"), float("inf"), 0, 1]
+               math.nextafter(0.1, 0.0), 0.1 + 0.05, 1e-300, 0.3, 0.001, float("nan"), float("inf"), 0, 1, -0.0, False, True]
 
 
 def gen_cases(ctx):
@@ -298,7 +315,7 @@ def gen_cases(ctx):
         cases.append({"stream": "random-precise", "kind": "precise", "s": _scale_vals(rng, n, st), "style": st,
                       "alpha": rng.choice(SUPPORTED), "alpha_np": rng.random() < 0.2,
                       "cont": rng.choice(["array", "array", "list", "col", "intarray", "int32", "intlist"]),
-                      "display": n <= 150 and rng.random() < pdisp})
+                      "display": n <= 150 and rng.random() < pdisp, "un": i % 10 == 0})
     # 3. random interval samples with selections
     for i in range(ctx.scale(110, 5000)):
         n = _size(rng, 500 if i % 7 == 0 else 120)
@@ -326,6 +343,21 @@ def gen_cases(ctx):
             hi = [m + g * rng.choice([1, 4 / 3, 0.5]) for m in mid]
         cases.append({"stream": "thin-interval", "kind": "interval", "lo": lo, "hi": hi, "style": "thin",
                       "alpha": SUPPORTED[i % 3], "nsel": 2, "display": i % 6 == 0})
+    # 3d. sizes at equalities with the number of p-box steps: n+2, n+1, n == steps (and around), twice the steps; 1
+    steps = int(_mods()[3].steps)
+    for n in sorted(set([1, steps - 4, steps - 3, steps - 2, steps - 1, steps, steps + 1, steps + 2, 2 * steps - 2, 2 * steps - 1, 2 * steps])):
+        if n < 1:
+            continue
+        for k, st in enumerate(["normal", "ints", "interval"]):
+            a = SUPPORTED[(n + k) % 3]
+            if st == "interval":
+                mid = _scale_vals(rng, n, "normal")
+                wl, wr = _widths(rng, mid, "normal")
+                cases.append({"stream": "sizes", "kind": "interval", "lo": [m - w for m, w in zip(mid, wl)],
+                              "hi": [m + w for m, w in zip(mid, wr)], "alpha": a, "nsel": 1, "un": True, "style": "steps"})
+            else:
+                cases.append({"stream": "sizes", "kind": "precise", "s": _scale_vals(rng, n, st), "alpha": a,
+                              "cont": "array" if k else "list", "un": True, "style": "steps"})
     # 3c. every numpy dtype as sample container (values near the ends of the dtype's range, so that differences wrap
     #     around in the dtype), unsorted / sorted / reversed; interval data with the same dtypes
     for di, dt in enumerate(DTYPES):
@@ -639,6 +671,17 @@ def verify_ring(ctx, ring, when):
             if json.dumps(again[part]) != json.dumps(canon[part]):      # nan-safe, exact on floats
                 bad.append(("repeat-call-differs", f"calling again ({when}) gives a different {part}"))
                 break
+        for how, mk in (("copy.copy", copy.copy), ("copy.deepcopy", copy.deepcopy), ("pickle", lambda o: pickle.loads(pickle.dumps(o)))):
+            try:
+                dup = mk(data)
+            except BaseException as e:  # noqa
+                bad.append(("operand-copy-raises", f"{how} of the operand raised {type(e).__name__}"))
+                continue
+            r2 = run_impl(c, data=dup)
+            for part in ("D", "band", "pbox"):
+                if json.dumps(r2[part]) != json.dumps(canon[part]):
+                    bad.append(("copied-operand-differs", f"the {how} of the operand gives a different {part}"))
+                    break
         for sym, what in bad:
             ctx.fail(feat(c, "KS_bounds", sym, n=canon["n"]), cj(c), what)
         ctx.bump("ring-verified")
@@ -692,7 +735,9 @@ def run(ctx: core.Check, cases=None):
                 "each with lo/hi/mid + 3 random selections (uniform, endpoint mix, piled ties); 21 fixed + random unsupported levels "
                 "(neighbours of the table keys, confidence-level confusions, 0, 1, negative, nan, inf); empty sample; synthetic bundles "
                 "with about a third of the calls made as KS_bounds(s, alpha[, output_type='pbox']) with display LEFT AT ITS DEFAULT (Agg backend); "
-                "every numpy dtype as container (uint8..uint64, int8/16/32 with values at both ends of the range, float32, float16, bool; unsorted, sorted, reversed; "
+                "sizes n with n+2, n+1, n around the p-box step count (196..202, 398..400, 1) for precise and interval data with output_type 'bounds', 'pbox' and 'un', "
+                "the p-box judged against the closed-form order statistics of the ecdf -+ D band at its own levels; power-of-two and 1e-170 / 1e150 scalings; "
+                "operands copied / deep-copied / pickled before use; every numpy dtype as container (uint8..uint64, int8/16/32 with values at both ends of the range, float32, float16, bool; unsorted, sorted, reversed; "
                 "also as Interval endpoints); alpha as float32/float16/longdouble/0-d,1-d array/str/Fraction/Decimal (must raise or equal the float's answer); "
                 "thin-but-wide interval data (units 1e-9..1e-15, locations 2e6..1e9 with gaps 3e-6 relative); integer lists / int32 / int64 samples; "
                 "every third result object kept alive and re-read + call repeated after later calls; the two-step route bounds -> pbox_from_ecdf_bundle; "
@@ -873,6 +918,16 @@ def run(ctx: core.Check, cases=None):
             sels = selections(rng, c["lo"], c["hi"], c["nsel"])
             members += sels[2:]
         okP = oracle_pbox(ctx, c, D, impl["pbox"][1:], lo_s, hi_s, pv, members) if okD else True
+        if "un" in impl:
+            ctx.bump("output_type-un")
+            if impl["un"][0] != "ok":
+                ctx.fail(feat(c, "KS_bounds(un)", "supported-level-raises", n=n), cj(c), f"output_type='un' raised {impl['un'][1]}")
+            else:
+                if okD:
+                    oracle_pbox(ctx, {**c}, D, impl["un"][1:], lo_s, hi_s, pv, members[:2])
+                if impl["un"] != impl["pbox"]:
+                    ctx.fail(feat(c, "KS_bounds(un)", "un-differs-from-pbox", n=n), cj(c),
+                             "the p-box inside the UncertainNumber differs from output_type='pbox'")
         # the band / p-box of interval data contains the band / p-box of every selection (both from the real code)
         if sels and okP:
             uq, up, lq, lp = impl["band"][1:]
